@@ -1,4 +1,250 @@
-import SmVerif.Model.MinHash
+/-
+C01 — a sketch holds exactly the retained hashes of everything added to it.
+
+Statements only (helper lemmas live in `SmVerif/Lemmas/MinHashInv.lean`).
+
+* `Inv` : the representation invariant (strictly ascending `mins`, aligned
+  positive abundances, threshold and capacity respected), preserved by every
+  operation, hence true in every reachable state (`inv_reachable`).
+* `count s x` : the abstraction — the count sketch `s` carries for hash `x`
+  (0 = absent; flat sketches carry 1).
+* scaled sketches refine the finite-map specification `Spec` for *every*
+  operation, including remove / clear / merge / set-abundances
+  (`count_addHashAb_scaled`, `count_removeHash`, `count_clear`, `count_merge_scaled`),
+  and two sketches with the same counts are the same vectors (`ext_of_count`).
+  Order-, duplicate- and batching-independence and "never loses a hash" are
+  corollaries.
+* num sketches: for removal-free histories the sketch is the first `num`
+  entries of the unbounded sketch fed the same additions (`num_add_take`,
+  `num_merge_take`); with removals the statement is false of any bottom-k sketch
+  (`num_remove_counterexample`, known finding D21).
+* `merge_abund_flat_example`: an abundance sketch merged with a flat one keeps its
+  counts (defect D5, repaired in /repo).
+* **finding**: `Inv` (its `capped` clause) is *not* preserved by `add_hash_with_abundance`
+  on a sketch that has both `num != 0` and `max_hash != 0` (the Rust constructor
+  allows it, the Python constructor refuses it): the `hash <= self.max_hash`
+  disjunct lets the push-at-the-end branch grow the vector beyond `num`
+  (`addHashAb_inv_counterexample`).  The three statements that quantify over
+  such sketches (`addHashAb_inv`, `setAbundances_inv`, `inv_reachable`) are
+  false as first stated; they are proved under the extra hypothesis
+  `Excl s : s.num = 0 ∨ s.maxHash = 0` (`*_partial`), which every sketch built
+  by the Python layer satisfies and which every operation preserves.
+-/
+import SmVerif.Lemmas.MinHashInv
+
 namespace Sm.C01
-theorem placeholder : (1 : Nat) = 1 := rfl
+
+open Sm MH
+
+/-! ### invariant in every reachable state -/
+
+theorem new_inv (sc k hf seed : Nat) (tr : Bool) (n : Nat) : Inv (MH.new sc k hf seed tr n) :=
+  Sm.inv_new sc k hf seed tr n
+
+/- FULL STATEMENT (not proved / false):
+     theorem addHashAb_inv {s : MH} (hs : Inv s) (h a : Nat) : Inv (s.addHashAb h a)
+   Counterexample (`addHashAb_inv_counterexample`): num = 2 and scaled = 1 (max_hash = 2^64-1)
+   together; after add 1, add 2 the sketch is valid and full, add 3 makes it [1, 2, 3].
+   Minimal correction: the hypothesis `Excl s` (not both a num and a scaled sketch). -/
+theorem addHashAb_inv_partial {s : MH} (hs : Inv s) (hx : Excl s) (h a : Nat) :
+    Inv (s.addHashAb h a) :=
+  Sm.inv_addHashAb hs hx h a
+
+theorem addHashAb_inv_counterexample :
+    let s := ((MH.new 1 21 1 42 false 2).addHash 1).addHash 2
+    Inv s ∧ ¬ Inv (s.addHashAb 3 1) := by
+  intro s
+  have hm : s.mins = [1, 2] := by decide
+  have ha : s.abunds = none := by decide
+  have hM : s.maxHash = U64MAX := by decide
+  have hn : s.num = 2 := by decide
+  refine ⟨⟨?_, ?_, ?_, ?_, ?_⟩, ?_⟩
+  · rw [hm]; simp [Sorted]
+  · intro ab h; rw [ha] at h; cases h
+  · intro ab h; rw [ha] at h; cases h
+  · intro _ x hx
+    rw [hm] at hx; rw [hM]
+    simp at hx
+    rcases hx with rfl | rfl <;> decide
+  · intro _; rw [hm, hn]; decide
+  · intro h
+    have := h.capped (by decide)
+    revert this
+    decide
+
+theorem removeHash_inv {s : MH} (hs : Inv s) (h : Nat) : Inv (s.removeHash h) :=
+  Sm.inv_removeHash hs h
+
+theorem clear_inv {s : MH} (hs : Inv s) : Inv s.clear :=
+  Sm.inv_clear hs
+
+theorem merge_inv {s o r : MH} (hs : Inv s) (ho : Inv o) (hr : s.merge o = .ok r) : Inv r :=
+  Sm.inv_merge hs ho hr
+
+/- FULL STATEMENT (not proved / false):
+     theorem setAbundances_inv {s r : MH} (hs : Inv s) {ps : List (Nat × Nat)} {c : Bool}
+         (hr : Py.setAbundances s ps c = .ok r) : Inv r
+   Counterexample (`setAbundances_inv_counterexample`): same cause as `addHashAb_inv`.
+   Minimal correction: the hypothesis `Excl s`. -/
+theorem setAbundances_inv_partial {s r : MH} (hs : Inv s) (hx : Excl s) {ps : List (Nat × Nat)}
+    {c : Bool} (hr : Py.setAbundances s ps c = .ok r) : Inv r :=
+  Sm.inv_pySetAbundances hs hx hr
+
+theorem setAbundances_inv_counterexample :
+    let s := MH.new 1 21 1 42 true 2
+    Inv s ∧ ∃ r, Py.setAbundances s [(1, 1), (2, 1), (3, 1)] false = .ok r ∧ ¬ Inv r := by
+  refine ⟨Sm.inv_new .., _, rfl, ?_⟩
+  intro h
+  have := h.capped (by decide)
+  revert this
+  decide
+
+theorem downsample_inv {s r : MH} (hs : Inv s) {n sc : Option Nat}
+    (hr : Py.downsample s n sc = .ok r) : Inv r :=
+  Sm.inv_pyDownsample hs hr
+
+theorem copy_inv {s r : MH} (hs : Inv s) (hr : Py.copy s = .ok r) : Inv r :=
+  Sm.inv_pyCopy hs hr
+
+/- `Op` (one API-level operation on a sketch: the Python surface that C01 quantifies
+   over), `step s op` (the sketch after the operation, unchanged when the operation is
+   refused) and `Op.Ok` (operands of binary operations must themselves be valid sketches)
+   are defined, in this namespace, in `SmVerif/Lemmas/MinHashOps.lean`. -/
+
+/- FULL STATEMENT (not proved / false):
+     theorem inv_reachable (s : MH) (hs : Inv s) (ops : List Op) (hops : ∀ op ∈ ops, op.Ok) :
+         Inv (ops.foldl step s)
+   Counterexample (`inv_reachable_counterexample`): same cause as `addHashAb_inv`.
+   Minimal correction: the hypothesis `Excl s` on the initial sketch (it is preserved by
+   every operation, `excl_reachable`). -/
+
+/-- **the invariant holds after every history** of operations -/
+theorem inv_reachable_partial (s : MH) (hs : Inv s) (hx : Excl s) (ops : List Op)
+    (hops : ∀ op ∈ ops, op.Ok) : Inv (ops.foldl step s) :=
+  Sm.inv_foldl_step s hs hx ops hops
+
+theorem excl_reachable (s : MH) (hs : Inv s) (hx : Excl s) (ops : List Op)
+    (hops : ∀ op ∈ ops, op.Ok) : Excl (ops.foldl step s) :=
+  (Sm.invx_foldl_step s hs hx ops hops).2
+
+/-- every sketch the Python constructor returns is valid and not both num and scaled -/
+theorem mkMinHash_inv {n k hf seed : Nat} {tr : Bool} {mh sc : Nat} {r : MH}
+    (h : Py.mkMinHash n k hf seed tr mh sc = .ok r) : Inv r ∧ Excl r :=
+  Sm.inv_mkMinHash h
+
+theorem inv_reachable_counterexample :
+    let s := MH.new 1 21 1 42 false 2
+    Inv s ∧ ¬ Inv ([Op.add 1, Op.add 2, Op.add 3].foldl step s) := by
+  refine ⟨Sm.inv_new .., ?_⟩
+  intro h
+  have := h.capped (by decide)
+  revert this
+  decide
+
+/-! ### scaled sketches refine the finite-map specification -/
+
+/-- adding hash `h` with abundance `a` to the abstract content of a sketch with
+threshold `M` (`M = 0`: no threshold) -/
+def Spec.add (M : Nat) (track : Bool) (m : Nat → Nat) (h a : Nat) : Nat → Nat :=
+  if M ≠ 0 ∧ h > M then m
+  else if a = 0 then fun x => if x = h then 0 else m x
+  else fun x => if x = h then (if track then m h + a else 1) else m x
+
+theorem count_addHashAb_scaled {s : MH} (hs : Inv s) (hn : s.num = 0) (hM : s.maxHash ≠ 0)
+    (h a x : Nat) :
+    count (s.addHashAb h a) x = Spec.add s.maxHash s.trackAbundance (count s) h a x :=
+  Sm.count_addHashAb_scaled' hs hn hM h a x
+
+theorem count_removeHash {s : MH} (hs : Inv s) (h x : Nat) :
+    count (s.removeHash h) x = if x = h then 0 else count s x :=
+  Sm.count_removeHash' hs h x
+
+theorem count_clear (s : MH) (x : Nat) : count s.clear x = 0 :=
+  Sm.count_clear' s x
+
+/-- merge: a sketch that tracks abundance keeps doing so and the merged
+abundances are the sums (a flat operand counts once per hash); a flat sketch
+holds the union.  (Before the repair of D5 an abundance sketch merged with a
+flat one silently became flat.) -/
+theorem count_merge_scaled {s o r : MH} (hs : Inv s) (ho : Inv o) (hn : s.num = 0)
+    (hr : s.merge o = .ok r) (x : Nat) :
+    r.trackAbundance = s.trackAbundance ∧
+    count r x = if s.trackAbundance then count s x + count o x
+                else min 1 (count s x + count o x) :=
+  Sm.count_merge_scaled' hs ho hn hr x
+
+/-- a hash is present iff its count is positive -/
+theorem mem_iff_count_pos {s : MH} (hs : Inv s) (x : Nat) : x ∈ s.mins ↔ 0 < count s x :=
+  Sm.mem_iff_count_pos' hs x
+
+/-- the abstraction is injective on valid sketches: same counts, same vectors -/
+theorem ext_of_count {s t : MH} (hs : Inv s) (ht : Inv t)
+    (htr : s.trackAbundance = t.trackAbundance) (h : ∀ x, count s x = count t x) :
+    s.mins = t.mins ∧ s.abunds = t.abunds :=
+  Sm.ext_of_count' hs ht htr h
+
+/-- a scaled sketch never loses a hash because other hashes were added -/
+theorem scaled_never_loses {s : MH} (hs : Inv s) (hn : s.num = 0) (hM : s.maxHash ≠ 0)
+    (h a x : Nat) (hx : x ∈ s.mins) (hne : x ≠ h) : x ∈ (s.addHashAb h a).mins ∧
+    count (s.addHashAb h a) x = count s x := by
+  have h1 := count_addHashAb_scaled hs hn hM h a x
+  have hc : count (s.addHashAb h a) x = count s x := by
+    rw [h1]; unfold Spec.add; split
+    · rfl
+    · split <;> simp [hne]
+  refine ⟨?_, hc⟩
+  rw [mem_iff_count_pos (addHashAb_inv_partial hs (Or.inl hn) h a), hc]
+  exact (mem_iff_count_pos hs x).1 hx
+
+/-- insertion order and duplicates do not matter: any permutation of a block
+of additions (positive abundances) gives the same sketch -/
+theorem scaled_order_independent {s : MH} (hs : Inv s) (hn : s.num = 0) (hM : s.maxHash ≠ 0)
+    (ps qs : List (Nat × Nat)) (hp : ps.Perm qs) (hpos : ∀ p ∈ ps, 0 < p.2) :
+    (s.addManyAb ps).mins = (s.addManyAb qs).mins ∧ (s.addManyAb ps).abunds = (s.addManyAb qs).abunds :=
+  Sm.scaled_order_independent' hs hn hM ps qs hp hpos
+
+/-- batching does not matter: `set_abundances(values, clear=False)` (which sorts
+its pairs first) equals adding the pairs one at a time in the order given -/
+theorem scaled_batching_independent {s : MH} (hs : Inv s) (hn : s.num = 0) (hM : s.maxHash ≠ 0)
+    (ps : List (Nat × Nat)) (hpos : ∀ p ∈ ps, 0 < p.2) :
+    (s.ffiSetAbundances ps false).mins = (s.addManyAb ps).mins ∧
+    (s.ffiSetAbundances ps false).abunds = (s.addManyAb ps).abunds :=
+  Sm.scaled_batching_independent' hs hn hM ps hpos
+
+/-! ### num sketches -/
+
+/-- For a removal-free history a num sketch is the first `num` entries of the
+unbounded sketch `u` (no threshold, no capacity) fed the same addition. -/
+theorem num_add_take {s u : MH} (hs : Inv s) (hu : Inv u)
+    (hn : s.num ≠ 0) (hsM : s.maxHash = 0) (hun : u.num = 0) (huM : u.maxHash = U64MAX)
+    (htr : s.trackAbundance = u.trackAbundance)
+    (hrep : s.pairs = u.pairs.take s.num) (h a : Nat) (ha : 0 < a) (hh : h ≤ U64MAX) :
+    (s.addHashAb h a).pairs = (u.addHashAb h a).pairs.take s.num :=
+  Sm.num_add_take' hs hu hn hsM hun huM htr hrep h a ha hh
+
+/-- merging num sketches keeps the `num` smallest of the sorted union -/
+theorem num_merge_take {s o r : MH} (hr : s.merge o = .ok r) (hn : s.num ≠ 0) :
+    r.pairs.map Prod.fst = ((mergeP s.pairs o.pairs).take s.num).map Prod.fst :=
+  Sm.num_merge_take' hr hn
+
+/-- **D21 (known finding).**  "exactly the num smallest among values added and
+not since removed" is false of a bottom-k sketch once a removal follows an
+eviction: num = 2; add 1, 2, 3; remove 1 leaves {2}, not {2, 3}. -/
+theorem num_remove_counterexample :
+    let s := (((MH.new 0 21 1 42 false 2).addHash 1).addHash 2).addHash 3
+    (s.removeHash 1).mins = [2] ∧ [2, 3] ≠ (s.removeHash 1).mins := by decide
+
+/-- D5 (repaired): an abundance sketch merged with a flat sketch keeps tracking
+abundance; the flat operand's hashes count once. -/
+theorem merge_abund_flat_example :
+    let a := ((MH.new 1 21 1 42 true 0).addHashAb 5 3).addHashAb 7 2
+    let f := (MH.new 1 21 1 42 false 0).addHash 7
+    ∃ r, a.merge f = .ok r ∧ r.abunds = some [3, 3] ∧ r.mins = [5, 7] := by
+  refine ⟨_, rfl, ?_, ?_⟩ <;> decide
+
+/-! non-vacuity of the hypotheses used above -/
+example : Inv ((MH.new 1 21 1 42 true 0).addHashAb 5 3) ∧
+    ((MH.new 1 21 1 42 true 0).addHashAb 5 3).maxHash ≠ 0 :=
+  ⟨addHashAb_inv_partial (new_inv ..) (Or.inl rfl) 5 3, by decide⟩
+
 end Sm.C01
